@@ -520,9 +520,65 @@ func execRepl(t *testing.T, sc Scn) *runOut {
 // ---------------------------------------------------------------------------------------------
 // stream.Merge
 
-type injErr struct{ id int }
+// injErr is an error injected into an input. wraps != nil: the error wraps a context error the way
+// fmt.Errorf("…: %w", context.Canceled) does (errors.Is sees it, identity does not).
+type injErr struct {
+	id    int
+	wraps error
+}
 
-func (e *injErr) Error() string { return fmt.Sprintf("E%d", e.id) }
+func (e *injErr) Error() string {
+	if e.wraps != nil {
+		return fmt.Sprintf("E%d: %v", e.id, e.wraps)
+	}
+	return fmt.Sprintf("E%d", e.id)
+}
+
+func (e *injErr) Unwrap() error { return e.wraps }
+
+// Error ids and what an input's Next returns for them — every one of them is the input's *own*
+// failure; nobody has cancelled the consumer's or Merge's context:
+//
+//	1..9, 40..  an error value of the harness
+//	11..19      an error wrapping context.Canceled
+//	21..29      an error wrapping context.DeadlineExceeded
+//	31          context.Canceled itself
+//	32          context.DeadlineExceeded itself
+const (
+	errBareCanceled = 31
+	errBareDeadline = 32
+)
+
+func injected(id int) error {
+	switch {
+	case id == errBareCanceled:
+		return context.Canceled
+	case id == errBareDeadline:
+		return context.DeadlineExceeded
+	case id >= 11 && id <= 19:
+		return &injErr{id: id, wraps: context.Canceled}
+	case id >= 21 && id <= 29:
+		return &injErr{id: id, wraps: context.DeadlineExceeded}
+	}
+	return &injErr{id: id}
+}
+
+// errID picks the id of the n-th (1-based) error of a scenario: mostly plain, otherwise one of the
+// context-flavoured kinds.
+func errID(r *vlib.Rand, n int) int {
+	d := 1 + (n-1)%9
+	switch r.Pick(8, 3, 2, 3, 2) {
+	case 1:
+		return 10 + d
+	case 2:
+		return 20 + d
+	case 3:
+		return errBareCanceled
+	case 4:
+		return errBareDeadline
+	}
+	return d
+}
 
 type gcmd struct {
 	kind string // item end err
@@ -596,7 +652,7 @@ func (g *gated) Next(ctx context.Context) (interface{}, error) {
 		if g.onErr != nil {
 			g.onErr(c.e)
 		}
-		return nil, &injErr{c.e}
+		return nil, injected(c.e)
 	}
 	g.ended = true
 	return nil, stream.End
@@ -861,6 +917,12 @@ func execSmerge(t *testing.T, sc Scn) *runOut {
 						r = cres{kind: "End"}
 					case errors.As(err, &ie):
 						r = cres{kind: "err", e: ie.id}
+					case err == context.Canceled && ctx.Err() == nil:
+						// this call's context is live: not its error — an input's own context.Canceled
+						r = cres{kind: "err", e: errBareCanceled}
+					case err == context.DeadlineExceeded:
+						// no context of the harness has a deadline
+						r = cres{kind: "err", e: errBareDeadline}
 					case errors.Is(err, context.Canceled) || errors.Is(err, context.DeadlineExceeded):
 						r = cres{kind: "ctx"}
 					default:
@@ -1021,6 +1083,10 @@ func conform(ms *models, sc Scn, o *runOut) (bad string) {
 	return ""
 }
 
+// lim: at most 2 shrunk reports per kind and 12 per kind-prefix class (own kinds / c08- / c09- /
+// correspondence): failures of one class never use up the room, or the time, of another.
+var lim = vlib.NewClassLimiter(2, 12)
+
 func runScn(t *testing.T, ms *models, res *vlib.Result, sc Scn, shrink bool) (monitorFailed bool) {
 	o := exec(t, sc)
 	res.Count("fam." + sc.Fam)
@@ -1038,6 +1104,9 @@ func runScn(t *testing.T, ms *models, res *vlib.Result, sc Scn, shrink bool) (mo
 	res.Case(sc.key(), nontrivial, nil)
 	for _, f := range o.finds {
 		monitorFailed = true
+		if !lim.Admit("monitor", f.kind) {
+			continue
+		}
 		small := sc
 		if shrink {
 			small.Steps = vlib.Shrink(sc.Steps, func(steps []Step) bool {
@@ -1054,7 +1123,7 @@ func runScn(t *testing.T, ms *models, res *vlib.Result, sc Scn, shrink bool) (mo
 		}
 		res.Fail(vlib.Failure{Source: "monitor", Kind: f.kind, Params: f.params, What: f.what, Case: small})
 	}
-	if bad := conform(ms, sc, o); bad != "" {
+	if bad := conform(ms, sc, o); bad != "" && lim.Admit("correspondence", sc.Fam+"-trace-not-in-model") {
 		small := sc
 		if shrink {
 			small.Steps = vlib.Shrink(sc.Steps, func(steps []Step) bool {
@@ -1068,7 +1137,7 @@ func runScn(t *testing.T, ms *models, res *vlib.Result, sc Scn, shrink bool) (mo
 		}
 		res.Fail(vlib.Failure{Source: "correspondence", Kind: sc.Fam + "-trace-not-in-model",
 			Params: map[string]interface{}{"inputs": sc.N}, What: bad, Case: small})
-	} else if conformable(sc) && ms.forFam(sc.Fam) != nil {
+	} else if bad == "" && conformable(sc) && ms.forFam(sc.Fam) != nil {
 		res.Traces++
 	}
 	if o.leak != "" && len(o.finds) == 0 {
@@ -1185,7 +1254,7 @@ func genSmerge(r *vlib.Rand, k int) Scn {
 				seq[i]++
 			}
 			if r.Chance(1, 5) {
-				toks = append(toks, fmt.Sprintf("e%d", r.Range(1, 9)))
+				toks = append(toks, fmt.Sprintf("e%d", errID(r, r.Range(1, 9))))
 			} else {
 				toks = append(toks, "end")
 			}
@@ -1218,7 +1287,7 @@ func genSmerge(r *vlib.Rand, k int) Scn {
 			case 2:
 				term[i] = true
 				errs++
-				sc.Steps = append(sc.Steps, Step{Op: "err", I: i, E: errs})
+				sc.Steps = append(sc.Steps, Step{Op: "err", I: i, E: errID(r, errs)})
 			}
 		case 3:
 			if !closed {
@@ -1289,8 +1358,13 @@ func enumerate(t *testing.T, ms *models, res *vlib.Result, until time.Time) bool
 			}
 			tail = append(tail, Step{Op: "close"}, Step{Op: "drain"})
 		case "smerge":
+			// input 0 fails with a plain error, input 1 with context.Canceled itself, input 2 with an
+			// error wrapping it; a single input with either of the first two
 			for i := 0; i < sp.n; i++ {
-				alpha = append(alpha, Step{Op: "item", I: i}, Step{Op: "end", I: i}, Step{Op: "err", I: i, E: i + 1})
+				alpha = append(alpha, Step{Op: "item", I: i}, Step{Op: "end", I: i}, Step{Op: "err", I: i, E: []int{1, errBareCanceled, 13}[i%3]})
+			}
+			if sp.n == 1 {
+				alpha = append(alpha, Step{Op: "err", I: 0, E: errBareCanceled})
 			}
 			alpha = append(alpha, Step{Op: "cnext", Live: true}, Step{Op: "cnext", Live: false}, Step{Op: "close"})
 			tail = append(tail, Step{Op: "cnext", Live: true}, Step{Op: "close"})
@@ -1430,11 +1504,10 @@ func TestVerif(t *testing.T) {
 			runScn(t, ms, res, genRepl(r.Fork(), n), true)
 		}
 	}
-	fails := 0
-	for c := 0; c < maxCases && time.Now().Before(deadline) && fails < 12; c++ {
-		if runScn(t, ms, res, genAny(r.Fork()), true) {
-			fails++
-		}
+	// no early stop on failures: a pile of failures of one kind-prefix class must not keep the
+	// scenarios that violate another class from being generated (the limiter bounds the shrinking)
+	for c := 0; c < maxCases && time.Now().Before(deadline); c++ {
+		runScn(t, ms, res, genAny(r.Fork()), true)
 	}
 	if ms.missing != "" {
 		res.ModelMissing = ms.missing
